@@ -586,7 +586,11 @@ func (g *Gen) genBool(n int) *Term {
 			case 5:
 				return must(Binary(g.Sc, op, g.genStr(n/2), g.litArray(n/2, 1)))
 			default:
-				return must(Binary(g.Sc, op, g.Of(KindType(NumKinds[r.Intn(len(NumKinds))]), n/2), g.genInts(n/2)))
+				coll := g.genInts(n / 2)
+				if r.Bool() {
+					coll = g.litArray(n/2, 0)
+				}
+				return must(Binary(g.Sc, op, g.Of(KindType(NumKinds[r.Intn(len(NumKinds))]), n/2), coll))
 			}
 		case 14, 15:
 			return g.builtin2(r.Pick([]string{"all", "any", "none", "one"}), n)
